@@ -198,6 +198,10 @@ func c08Boundaries(kind int) []*big.Int {
 	return out
 }
 
+// lengths of bytes values around the sizes at which an encoder may switch strategy (chunked / streamed base64: 1024,
+// 2048, 3072, 4096 and their neighbours modulo 3, a non-round size, 12 KiB + 1)
+var c08BytesLens = []int{1023, 1024, 1025, 1026, 1027, 2048, 3072, 4095, 4096, 4097, 5000, 12289}
+
 // replaces a share of the numeric scalars of v (values, elements, map keys and map values) by boundary values
 func c08Mutate(r *rng, v *pgVal, share int) {
 	switch v.Tag {
@@ -219,6 +223,11 @@ func c08Mutate(r *rng, v *pgVal, share int) {
 				b = b&^(uint64(0x7ff)<<52) | e<<52
 				v.I = new(big.Int).SetUint64(b)
 			}
+		}
+	case 3:
+		// now and then a long bytes value (singular, element or map value; never a key: keys are not bytes)
+		if v.Kind == pgKBytes && r.chance(3) {
+			v.B = r.bytes(c08BytesLens[r.intn(len(c08BytesLens))])
 		}
 	case 4:
 		for _, e := range v.Elems {
@@ -668,6 +677,7 @@ func c08SweepSchema() (*pgSchema, map[*pgField]bool) {
 	add(pgSingular, pgKBytes, 0, false)
 	add(pgRepeated, pgKString, 0, false)
 	add(pgRepeated, pgKBytes, 0, false)
+	add(pgMap, pgKBytes, 5, false) // map<int32, bytes>
 	s.Msgs = []*pgMsg{m}
 	return s, unpacked
 }
@@ -730,6 +740,35 @@ func genC08Sweep(r *rng, st *c08Stats, budget int) {
 			}
 			pgSortEntries(mv.Entries)
 			one(f, mv)
+		}
+	}
+	// bytes values of every length class as singular field, repeated element (first / middle / last) and map value
+	for _, f := range m.Fields {
+		if f.Kind != pgKBytes {
+			continue
+		}
+		for i, n := range c08BytesLens {
+			long := pgStr(pgKBytes, r.bytes(n))
+			small := func() *pgVal { return pgStr(pgKBytes, r.bytes(1+r.intn(5))) }
+			switch f.Label {
+			case pgSingular:
+				one(f, long)
+			case pgRepeated:
+				l := &pgVal{Tag: 4, Kind: pgKBytes}
+				switch i % 3 {
+				case 0:
+					l.Elems = []*pgVal{long, small()}
+				case 1:
+					l.Elems = []*pgVal{small(), long, small()}
+				default:
+					l.Elems = []*pgVal{small(), long}
+				}
+				one(f, l)
+			case pgMap:
+				mv := &pgVal{Tag: 5, Kind: pgKBytes, KeyKind: f.KeyKind}
+				mv.Entries = []pgKV{{K: pgNum(f.KeyKind, big.NewInt(int64(i))), V: long}}
+				one(f, mv)
+			}
 		}
 	}
 	// the empty message and a message with everything empty-able empty
